@@ -33,6 +33,13 @@ class C19(Plugin):
                 cases.append([d, p0, ti, r])
                 if r[0] == "O":
                     cases.append([d, p0, ti, r, 1])       # first poll by one task, then handed to another
+        # durations people use for "no timeout": Duration::MAX, u64::MAX seconds, 2^63 seconds, a thousand years
+        for d in (18446744073709551615 * 1000 + 999, 18446744073709551615 * 1000, (1 << 63) * 1000, (1 << 63) * 1000 - 1,
+                  31_557_600_000_000):
+            for ti, p0 in ((0, 0), (3, 0), (7, 2), (0, 5)):
+                for r in (["O", 7], ["E", 3]):
+                    cases.append([d, p0, ti, r, 0])
+                cases.append([d, p0, ti, ["O", 1], 1])
         n = 500 if tier == "quick" else 20000
         for _ in range(n):
             d = rng.randint(0, 50)
@@ -46,6 +53,8 @@ class C19(Plugin):
 
     def parse_obs(self, c, line):
         f = line.split()
+        if f[0] == "PANIC":
+            return {"res": "PANIC", "at": None, "dropped": None}
         if f[0] == "INNER":
             return {"res": f[1], "at": int(f[2]), "dropped": None if f[3] == "-" else int(f[3])}
         return {"res": f[0], "at": None if f[1] == "-" else int(f[1]), "dropped": None if f[2] == "-" else int(f[2])}
